@@ -5,7 +5,9 @@
 //! 0 and entry i is the byte offset of frame i's first item from the first item after the table — both in memory
 //! (8 bytes of item header + even-padded length of every earlier fragment) and as found by an independent walk of
 //! the WRITTEN data set, where every fragment item has even length; Number of Frames matches; and the Encapsulated
-//! Pixel Data Value Total Length attribute equals the total length of all fragments.
+//! Pixel Data Value Total Length attribute equals the total length of all fragments (every fragment already of even length
+//! in the data set); transcoding back to native leaves no such attribute behind and (lossless targets) gives the original pixels.
+//! Odd-sized native values are used both bare and with the padding byte they carry after being read from a file.
 use dicom_core::value::Value;
 use dicom_core::{dicom_value, DataElement, PrimitiveValue, Tag, VR};
 use dicom_encoding::transfer_syntax::{Codec, TransferSyntaxIndex};
@@ -18,9 +20,11 @@ impl Tally {
     fn fail(&mut self, what: String) { self.bad += 1; if self.bad <= 8 { println!("WITNESS unit=C18.transcode {}", what); } }
 }
 
-fn image(bits: u16, spp: u16, rows: u16, cols: u16, frames: u32) -> InMemDicomObject {
+/// `padded`: the native value carries the padding byte it has after being read from a file (odd totals only)
+fn image(bits: u16, spp: u16, rows: u16, cols: u16, frames: u32, padded: bool) -> InMemDicomObject {
     let n = rows as usize * cols as usize * spp as usize * (bits as usize / 8) * frames as usize;
-    let bytes: Vec<u8> = (0..n).map(|i| (i * 7 + 3) as u8).collect();
+    let mut bytes: Vec<u8> = (0..n).map(|i| (i * 7 + 3) as u8).collect();
+    if padded && n % 2 == 1 { bytes.push(0); }
     let px = if bits == 8 { DataElement::new(Tag(0x7FE0, 0x0010), VR::OB, PrimitiveValue::from(bytes)) }
              else { DataElement::new(Tag(0x7FE0, 0x0010), VR::OW, PrimitiveValue::U16(bytes.chunks(2).map(|c| u16::from_le_bytes([c[0], c[1]])).collect())) };
     InMemDicomObject::from_element_iter([
@@ -51,10 +55,12 @@ fn main() {
     for (uid, name) in &targets {
         let ts = TransferSyntaxRegistry.get(uid).unwrap();
         for (bits, spp, rows, cols) in [(8u16, 1u16, 3u16, 3u16), (8, 1, 2, 4), (8, 3, 3, 3), (8, 3, 2, 2), (16, 1, 3, 3), (16, 1, 1, 1), (8, 1, 1, 1)] {
-            for frames in 1..=3u32 {
+            for frames in 1..=3u32 { for padded in [false, true] {
+                let n = rows as usize * cols as usize * spp as usize * (bits as usize / 8) * frames as usize;
+                if padded && n % 2 == 0 { continue; }
                 t.cases += 1;
-                let label = format!("{} ({}): {} bit x {} samples, {}x{}, {} frames", name, uid, bits, spp, rows, cols, frames);
-                let mut file = image(bits, spp, rows, cols, frames).with_meta(FileMetaTableBuilder::new().transfer_syntax("1.2.840.10008.1.2.1")).expect("meta");
+                let label = format!("{} ({}): {} bit x {} samples, {}x{}, {} frames{}", name, uid, bits, spp, rows, cols, frames, if padded { ", native value with its padding byte" } else { "" });
+                let mut file = image(bits, spp, rows, cols, frames, padded).with_meta(FileMetaTableBuilder::new().transfer_syntax("1.2.840.10008.1.2.1")).expect("meta");
                 match std::panic::catch_unwind(std::panic::AssertUnwindSafe(|| file.transcode(ts))) {
                     Ok(Ok(())) => {}
                     Ok(Err(_)) => continue, // this encoder does not take this image (e.g. 16-bit for baseline JPEG): nothing was encapsulated
@@ -69,11 +75,13 @@ fn main() {
                 if table != want { t.fail(format!("{}: basic offset table {:?}, expected {:?} (fragment lengths {:?})", label, table, want, frags.iter().map(|f| f.len()).collect::<Vec<_>>())); continue; }
                 let nf = file.element(Tag(0x0028, 0x0008)).ok().and_then(|e| e.to_int::<u32>().ok());
                 if nf != Some(frames) { t.fail(format!("{}: Number of Frames {:?} after transcoding", label, nf)); continue; }
+                // every fragment has even length already in the data set (the fragment held is the fragment written)
+                if let Some(f) = frags.iter().find(|f| f.len() % 2 == 1) { t.fail(format!("{}: a fragment of odd length {} in the transcoded data set (fragment lengths {:?})", label, f.len(), frags.iter().map(|f| f.len()).collect::<Vec<_>>())); continue; }
                 let total_mem: u64 = frags.iter().map(|f| f.len() as u64).sum();
                 let total_wire: u64 = frags.iter().map(|f| (f.len() + f.len() % 2) as u64).sum();
                 if let Ok(e) = file.element(Tag(0x7FE0, 0x0003)) {
                     let v = e.to_int::<u64>().ok();
-                    if v != Some(total_mem) && v != Some(total_wire) { t.fail(format!("{}: Encapsulated Pixel Data Value Total Length {:?}, the fragments total {} bytes ({} with padding)", label, v, total_mem, total_wire)); continue; }
+                    if v != Some(total_mem) || v != Some(total_wire) { t.fail(format!("{}: Encapsulated Pixel Data Value Total Length {:?}, the fragments total {} bytes ({} with padding)", label, v, total_mem, total_wire)); continue; }
                 }
                 if file.meta().transfer_syntax.trim_end_matches('\0') != uid { t.fail(format!("{}: file meta transfer syntax {:?} after transcoding", label, file.meta().transfer_syntax)); continue; }
                 // independent walk of the written data set (Explicit VR LE layout of encapsulated syntaxes)
@@ -97,7 +105,20 @@ fn main() {
                     }
                 }
                 if ok && wire_table != starts { t.fail(format!("{}: written offset table {:?}, the frames' first items are at {:?}", label, wire_table, starts)); }
-            }
+                // back to native: no attribute describing fragments is left behind, and (lossless targets) the pixels are the original ones
+                let original: Vec<u8> = (0..n).map(|i| (i * 7 + 3) as u8).collect();
+                match std::panic::catch_unwind(std::panic::AssertUnwindSafe(|| file.transcode(&dicom_transfer_syntax_registry::entries::EXPLICIT_VR_LITTLE_ENDIAN.erased()))) {
+                    Ok(Ok(())) => {
+                        if file.element(Tag(0x7FE0, 0x0003)).is_ok() { t.fail(format!("{}: after transcoding back to native, Encapsulated Pixel Data Value Total Length is still there although there are no fragments", label)); }
+                        if uid != "1.2.840.10008.1.2.4.50" {
+                            let back = file.element(Tag(0x7FE0, 0x0010)).ok().and_then(|e| e.to_bytes().ok().map(|b| b.to_vec()));
+                            if back.as_ref().map(|b| b.len() < n || b[..n] != original[..]).unwrap_or(true) { t.fail(format!("{}: after transcoding back to native the pixel data is {:?}, the original was {:?}", label, back.map(|b| b.iter().take(24).cloned().collect::<Vec<u8>>()), &original[..n.min(24)])); }
+                        }
+                    }
+                    Ok(Err(e)) => t.fail(format!("{}: transcoding back to native failed: {}", label, e)),
+                    Err(_) => t.fail(format!("{}: transcoding back to native panicked", label)),
+                }
+            } }
         }
     }
     println!("EXHAUSTIVE unit=C18.transcode cases={} targets={} mismatches={}", t.cases, targets.len(), t.bad);
